@@ -50,7 +50,7 @@ Flush(S, x, ep, nf) ==
         o |-> ep.out]
 NoFlush(s) == "nf" \in DOMAIN s /\ s.nf
 
-Pred(r, o, ev, ep) == [r |-> r, o |-> o, e |-> ev, q |-> Queries(ep, QSids), u |-> ep.hd]
+Pred(r, o, ev, ep) == [r |-> r, o |-> PubFrames(o), e |-> ev, q |-> Queries(ep, QSids), u |-> ep.hd]
 
 \* one step: returns the new scenario state and the step record with its prediction
 Do(S, s) ==
